@@ -81,7 +81,11 @@ open NumChecks in
     holds, for well-formed operands: comparisons by `c16_cmp`, integer multiples by
     `multipleOfInts_exact`. -/
 theorem c01_num_holds_spec (p : NPred) (v : Num) (hv : C16.Num.wf v)
-    (hp : match p with | .cmp _ b => C16.Num.wf b | .mult d => C16.Num.wf d ∧ C16.isInt d = true ∧ C16.isInt v = true) :
+    (hp : match p with
+          | .cmp _ b => C16.Num.wf b
+          | .mult d => C16.Num.wf d ∧ C16.isInt d = true ∧ C16.isInt v = true
+          | .finite => True
+          | .safe => True) :
     holds p v = specHolds p v := by
   cases p with
   | cmp op b => exact C16.c16_cmp op v b hv hp
@@ -90,6 +94,13 @@ theorem c01_num_holds_spec (p : NPred) (v : Num) (hv : C16.Num.wf v)
     have := C16.multipleOfInts_exact v d hv hd hiv hid
     simp only [holds, specHolds, this]
     cases v <;> cases d <;> simp_all [C16.isInt, C16.ival]
+  | finite => rfl
+  | safe =>
+    have wlo : C16.Num.wf (safeBound v (-(2 ^ 53 - 1))) := by
+      cases v <;> simp [safeBound, C16.Num.wf, IntTy.inRange, IntTy.lo, IntTy.hi, IntTy.signed, IntTy.bits]
+    have whi : C16.Num.wf (safeBound v (2 ^ 53 - 1)) := by
+      cases v <;> simp [safeBound, C16.Num.wf, IntTy.inRange, IntTy.lo, IntTy.hi, IntTy.signed, IntTy.bits]
+    simp only [holds, specHolds, C16.c16_cmp _ v _ hv wlo, C16.c16_cmp _ v _ hv whi]
 
 /-! ### Enum / Literal: membership with Go's interface equality (type and value) -/
 
